@@ -335,7 +335,7 @@ fn run_conformance(ctx: &mut Ctx, prop: &'static str, family: Family, quick_rand
     let blocks: Vec<usize> = specs.iter().map(|s| s.block).collect();
     let nspec = names.len();
     let specs3 = specs.clone();
-    let long_max = if ctx.tier == crate::engine::Tier::Quick { 65_536usize } else { 4 << 20 };
+    let long_max = if ctx.tier == crate::engine::Tier::Quick { 65_536usize } else { 1 << 20 };
     let strat = (0..nspec, any::<u64>(), 0u32..1000, any::<u16>(), gen::pattern(), prop_oneof![3 => Just(Vec::new()), 2 => prop::collection::vec(any::<u16>(), 1..=3)]).prop_map(move |(hi, seed, sel, l, pat, cuts)| {
         let b = blocks[hi];
         let len = if sel < 600 {
@@ -355,13 +355,13 @@ fn run_conformance(ctx: &mut Ctx, prop: &'static str, family: Family, quick_rand
 }
 
 pub fn run_c04(ctx: &mut Ctx) {
-    run_conformance(ctx, "C04", Family::Blake, 600_000, 6_000_000);
+    run_conformance(ctx, "C04", Family::Blake, 600_000, 4_000_000);
     ctx.required_classes.push("BLAKE exact fit (padding byte 0x81)".into());
     ctx.required_classes.push("BLAKE extra padding block".into());
     ctx.required_classes.push("empty message".into());
 }
 pub fn run_c05(ctx: &mut Ctx) {
-    run_conformance(ctx, "C05", Family::Skein, 200_000, 2_000_000);
+    run_conformance(ctx, "C05", Family::Skein, 200_000, 1_200_000);
     // outputs of more than 256 blocks: 10 000 / 32 768 / 65 536 bytes
     let large = skein_large_outputs();
     let mut cases = Vec::new();
